@@ -346,6 +346,28 @@ func (r *histRunner) exec(op string) (outcome string) {
 			s, err := bip39.NewMnemonicByEntropy(e, lg)
 			r.keepString("mnemonic returned by "+op, s)
 			outcome = s + "|" + errString(err)
+		case "CX":
+			// the same string (a valid English sentence) under every language: a verdict memo keyed by
+			// the string alone shows here
+			en := strings.Join(r.m.Words(bytes.Repeat([]byte{0x21 + 7*2}, 32), 2), " ")
+			outcome = errString(bip39.CheckMnemonic(en, lg))
+		case "SP":
+			// the same mnemonic with a language-specific passphrase: a seed memo keyed by the mnemonic alone shows here
+			en := strings.Join(r.m.Words(bytes.Repeat([]byte{0x21 + 7*2}, 32), 2), " ")
+			out := bip39.MnemonicToSeed(en, "pw"+langName(v))
+			r.keepBytes("seed returned by "+op, out)
+			outcome = hex.EncodeToString(out)
+		case "SM":
+			// a language-specific mnemonic with the same passphrase
+			out := bip39.MnemonicToSeed(valid, "pw")
+			r.keepBytes("seed returned by "+op, out)
+			outcome = hex.EncodeToString(out)
+		case "GX":
+			// the same entropy under every language: an encoder memo keyed by the entropy alone shows here
+			e := bytes.Repeat([]byte{0x42}, 16)
+			s, err := bip39.NewMnemonicByEntropy(e, lg)
+			r.keepString("mnemonic returned by "+op, s)
+			outcome = s + "|" + errString(err)
 		case "GL":
 			// 32-byte entropy (a different size than GE, for cross-size interference)
 			e := bytes.Repeat([]byte{byte(0x17 + 3*ml)}, 32)
@@ -510,6 +532,9 @@ func langsOfOps(spec string) map[int]bool {
 		need[ml] = true
 		if parts[0] == "CF" {
 			need[(ml+1)%ref.NLang] = true
+		}
+		if parts[0] == "CX" || parts[0] == "SP" {
+			need[2] = true
 		}
 	}
 	return need
